@@ -141,6 +141,84 @@ def _symconst(e):
     return None
 
 
+ENUMS = {}      # "CigarOp" / "Location.Strand" -> {member: value}: enumerations whose class body was read (register_enums)
+
+
+def register_enums(tree):
+    """remember the members of every Enum / IntEnum / Flag class of a module (values that are literals, auto() or arithmetic on
+    literals); a member assigned from outside the class body (`CigarOp.CLIP = ..`) makes the whole enumeration unknown"""
+    from .astutil import const_eval, NotConst
+
+    def visit(node, prefix):
+        for ch in ast.iter_child_nodes(node):
+            if isinstance(ch, ast.ClassDef):
+                q = prefix + ch.name
+                if any((isinstance(b_, ast.Name) and b_.id in ("Enum", "IntEnum", "Flag", "IntFlag")) or
+                       (isinstance(b_, ast.Attribute) and b_.attr in ("Enum", "IntEnum", "Flag", "IntFlag")) for b_ in ch.bases):
+                    members, k_auto, ok = {}, 0, True
+                    for st in ch.body:
+                        if isinstance(st, ast.Assign) and len(st.targets) == 1 and isinstance(st.targets[0], ast.Name):
+                            k_auto += 1
+                            v = st.value
+                            if isinstance(v, ast.Call) and isinstance(v.func, ast.Name) and v.func.id == "auto":
+                                members[st.targets[0].id] = ("auto", k_auto)
+                            else:
+                                try:
+                                    members[st.targets[0].id] = const_eval(v)
+                                except Exception:
+                                    ok = False
+                    if ok and members:
+                        ENUMS[q] = members
+                visit(ch, prefix + ch.name + ".")
+            elif not isinstance(ch, (ast.FunctionDef, ast.AsyncFunctionDef)):
+                visit(ch, prefix)
+    visit(tree, "")
+    for st in ast.walk(tree):
+        if isinstance(st, (ast.Assign, ast.AugAssign)):
+            for t in (st.targets if isinstance(st, ast.Assign) else [st.target]):
+                if isinstance(t, ast.Attribute):
+                    d_ = []
+                    b_ = t
+                    while isinstance(b_, ast.Attribute):
+                        d_.append(b_.attr)
+                        b_ = b_.value
+                    if isinstance(b_, ast.Name):
+                        owner = ".".join([b_.id] + d_[::-1][:-1])
+                        ENUMS.pop(owner, None)
+                        ENUMS[owner] = None
+        elif isinstance(st, ast.Call) and isinstance(st.func, ast.Name) and st.func.id == "setattr" and st.args:
+            try:
+                ENUMS[ast.unparse(st.args[0])] = None
+            except Exception:
+                pass
+
+
+def _const_equal(a, b):
+    """True / False when `a == b` is decided for two named constants, else None: literals by Python's own equality
+    (1 == 1.0 == True); members of one enumeration that was read by their values (aliases are equal); members of an
+    enumeration that was not read only when they are spelled alike"""
+    if a[0] == "lit" and b[0] == "lit":
+        try:
+            return bool(a[2] == b[2])
+        except Exception:
+            return None
+    if a[0] == "member" and b[0] == "member":
+        if a[1] == b[1]:
+            return True
+        oa, ma = a[1].rsplit(".", 1)
+        ob, mb = b[1].rsplit(".", 1)
+        if oa == ob and ENUMS.get(oa):
+            va, vb = ENUMS[oa].get(ma, _UNKNOWN), ENUMS[oa].get(mb, _UNKNOWN)
+            if va is _UNKNOWN or vb is _UNKNOWN:
+                return None
+            return va == vb
+        return None
+    return None
+
+
+_UNKNOWN = object()
+
+
 def _comparable(consts):
     """can equality among these named constants be decided by their identity: all literals, or all members of ONE enumeration
     (a member and a literal, or members of two IntEnums, may be equal although they are spelled differently)"""
@@ -159,9 +237,9 @@ def fold(e):
             self.generic_visit(n)
             if isinstance(n.ctx, ast.Load) and isinstance(n.value, ast.Dict) and _symconst(n.slice) is not None \
                     and all(k is not None and _symconst(k) is not None for k in n.value.keys) \
-                    and _comparable([_symconst(n.slice)] + [_symconst(k) for k in n.value.keys]):
+                    and all(_const_equal(_symconst(n.slice), _symconst(k)) is not None for k in n.value.keys):
                 # a repeated key keeps its LAST value
-                hit = [v for k, v in zip(n.value.keys, n.value.values) if _symconst(k) == _symconst(n.slice)]
+                hit = [v for k, v in zip(n.value.keys, n.value.values) if _const_equal(_symconst(k), _symconst(n.slice))]
                 if hit:
                     return hit[-1]
             if isinstance(n.ctx, ast.Load) and isinstance(n.value, (ast.Tuple, ast.List)) and isinstance(n.slice, ast.Constant) \
@@ -181,8 +259,8 @@ def fold(e):
             if isinstance(n.func, ast.Attribute) and n.func.attr == "get" and isinstance(n.func.value, ast.Dict) and 1 <= len(n.args) <= 2 \
                     and not n.keywords and _symconst(n.args[0]) is not None \
                     and all(k is not None and _symconst(k) is not None for k in n.func.value.keys) \
-                    and _comparable([_symconst(n.args[0])] + [_symconst(k) for k in n.func.value.keys]):
-                hit = [v for k, v in zip(n.func.value.keys, n.func.value.values) if _symconst(k) == _symconst(n.args[0])]
+                    and all(_const_equal(_symconst(n.args[0]), _symconst(k)) is not None for k in n.func.value.keys):
+                hit = [v for k, v in zip(n.func.value.keys, n.func.value.values) if _const_equal(_symconst(k), _symconst(n.args[0]))]
                 return hit[-1] if hit else (n.args[1] if len(n.args) == 2 else ast.Constant(None))
             # Enum(Enum.MEMBER) is Enum.MEMBER
             if isinstance(n.func, ast.Name) and len(n.args) == 1 and not n.keywords:
@@ -210,20 +288,18 @@ def _known_truth(test):
         l, r, op = _symconst(test.left), test.comparators[0], test.ops[0]
         if l is not None:
             if isinstance(op, (ast.Eq, ast.NotEq)) and _symconst(r) is not None:
-                if l == _symconst(r):
-                    eq = True
-                elif _comparable([l, _symconst(r)]):
-                    eq = False
-                else:
-                    return None      # `CigarOp.SOFT_CLIP == 4`: not decided by the spelling
+                eq = _const_equal(l, _symconst(r))
+                if eq is None:
+                    return None      # `CigarOp.SOFT_CLIP == 4`, a member whose value is not known: not decided by the spelling
                 return eq if isinstance(op, ast.Eq) else not eq
             if isinstance(op, (ast.In, ast.NotIn)):
                 items = r.elts if isinstance(r, (ast.Tuple, ast.List, ast.Set)) else r.keys if isinstance(r, ast.Dict) else None
                 if items is not None and all(i is not None and _symconst(i) is not None for i in items):
                     cs = [_symconst(i) for i in items]
-                    if l in cs:
+                    eqs = [_const_equal(l, c_) for c_ in cs]
+                    if any(e_ is True for e_ in eqs):
                         inside = True
-                    elif _comparable([l] + cs):
+                    elif all(e_ is False for e_ in eqs):
                         inside = False
                     else:
                         return None
@@ -641,8 +717,11 @@ def _summarize(func, mutators=None, env0=None):
                     must = [t.id for t in targets if isinstance(t, ast.Name)] + ([st.value.id] if isinstance(st.value, ast.Name) else [])
                     if len(must) > 1:
                         sm_ = dict(env.get("__same__", {}))
+                        full = set(must)
                         for a_ in must:
-                            sm_[a_] = frozenset(sm_.get(a_, frozenset())) | frozenset(must)
+                            full |= set(sm_.get(a_, ()))
+                        for a_ in full:
+                            sm_[a_] = frozenset(full)
                         env["__same__"] = sm_
                 effects_in_value(st.value, env)
                 continue
@@ -776,6 +855,12 @@ def _summarize(func, mutators=None, env0=None):
             new = _call("__set__", cur, subst(_slice_expr(t.slice), env), val)
             if isinstance(base, (ast.Name, ast.Subscript, ast.Attribute, ast.Starred)):
                 _bind(base, new, env, True)
+                if not isinstance(base, ast.Name):
+                    # `box[0][:] = v`, `obj.rows[i][j] = v`: an item of a container is written - whatever the container may hold
+                    direct = _alias.base_name(base)
+                    for n_ in sorted(_alias.written_through(base, grp_all) - {direct} - _MODULE_NAMES):
+                        if "." not in n_ and n_ not in ("self", "cls"):
+                            mutate(n_, _call("__mut__", _call("__item_written__", ast.Constant(direct or "?")), ast.Constant(n_)), env)
             else:
                 # np.asarray(x)[:] = v, x.view()[i] = v, (a if c else b)[i] = v: whatever the base may be is written
                 for n_ in sorted(_alias.roots(base, None, local_callables) - _MODULE_NAMES):
@@ -794,7 +879,18 @@ def _summarize(func, mutators=None, env0=None):
     def _slice_expr(s):
         return ast.Subscript(value=ast.Name(id="__idx__", ctx=ast.Load()), slice=copy.deepcopy(s), ctx=ast.Load())
 
-    env, ret = run(list(func.body), dict(env0 or {}))
+    # the OBJECT each parameter was called with, under a name of its own (`@p`) that is never rebound: `g = p; p = p - 1; g[:] = 0`
+    # changes the caller's object although `p` names something else by then
+    start = dict(env0 or {})
+    if isinstance(func, (ast.FunctionDef, ast.AsyncFunctionDef)):
+        for a_ in func.args.posonlyargs + func.args.args + func.args.kwonlyargs:
+            if a_.arg not in start and a_.arg not in ("self", "cls"):
+                start["@" + a_.arg] = name(a_.arg)
+                link(start, [a_.arg, "@" + a_.arg])
+                sm0 = dict(start.get("__same__", {}))
+                sm0[a_.arg] = sm0["@" + a_.arg] = frozenset([a_.arg, "@" + a_.arg])
+                start["__same__"] = sm0
+    env, ret = run(list(func.body), start)
     env.pop("__aliases__", None)
     env.pop("__same__", None)
     env.pop("__tainted__", None)
@@ -951,9 +1047,10 @@ def _simplify(c):
         return isinstance(t, tuple) and len(t) == 2 and t[0] == "const" and isinstance(t[1], int) and not isinstance(t[1], bool)
     if c and c[0] == "+":
         # integer literals are added up: -(2 + 1) = -3, n + 1 with n = 2 is 3 (index arithmetic of written-out loops)
+        # (a literal that was written stays, even as `+ 0`: `mask + 1 - 1` is an integer array, not the boolean mask)
         ints = [t[1] for t in c[1:] if is_int(t)]
         terms = [t for t in c[1:] if not is_int(t)]
-        if sum(ints) != 0 or not terms:
+        if ints:
             terms.append(_const(sum(ints)))
         if len(terms) == 1:
             return terms[0]
@@ -964,10 +1061,8 @@ def _simplify(c):
         prod = 1
         for v in ints:
             prod *= v
-        if ints and (prod != 1 or not terms) and len(ints) > 1:
-            terms.append(_const(prod))
-        elif ints and not (prod == 1 and terms and len(ints) > 1):
-            terms.extend(_const(v) for v in ints)
+        if ints:
+            terms.append(_const(prod))          # `x * 1 * 1` is `x * 1` (not `x`: the product of a boolean array is an integer array)
         if len(terms) == 1:
             return terms[0]
         return ("*",) + tuple(sorted(terms, key=repr))
@@ -1514,8 +1609,8 @@ def _out_arguments(c_):
     is_np = fn.startswith(("np.", "numpy."))
     if is_np and c_.args and (last in _FIRST_ARG_WRITERS or fn.endswith(".at")):
         outs.append(c_.args[0])
-    if last == "shuffle" and c_.args and not is_np:
-        outs.append(c_.args[0])             # rng.shuffle(x), random.shuffle(x)
+    if isinstance(c_.func, ast.Attribute) and c_.func.attr == "shuffle" and c_.args:
+        outs.append(c_.args[0])             # rng.shuffle(x), random.shuffle(x), np.random.default_rng(0).shuffle(x)
     if is_np and len(c_.args) >= 3 and last in _UFUNCS2 and last != "clip":
         outs.append(c_.args[2])
     if is_np and last == "clip" and len(c_.args) >= 4:
